@@ -182,7 +182,7 @@ def handle (j : Json) : Except String Verdict := do
   let expectNew := if specNewOk then "ok" else "err"
   -- a fixed shape whose element count does not fit the i32 list size of the storage type is not a well-formed parameter set:
   -- the property leaves open WHERE it is refused (constructor or Field::try_from; the model refuses in try_from).  A refusal
-  -- by the constructor is therefore neither a violation nor a disagreement (false-alarm probe g16, DESIGN.md 7.2).
+  -- by the constructor is therefore neither a violation nor a disagreement (false-alarm probe g16: DESIGN.md section 11.1, correction dated in section 7.2).
   if helper == "fixed" && specNewOk && clsNew == "err" && shape.foldl (· * ·) 1 > i32MaxN then
     return { agree := true, spec := [("C20", "pass"), c16 clsNew], tags := tags ++ ["refused-at-construction"] }
   if clsNew != expectNew then
